@@ -79,7 +79,10 @@ def random_grammar(rnd, nT=None, nN=None, max_alts=3, max_len=3, p_term=0.55, p_
         for lv in range(nlev):
             take = pool[lv::nlev] if lv < nlev else []
             if take:
-                precs.append((rnd.choice(['left', 'right', 'nonassoc', 'left', 'right']), take))
+                precs.append((rnd.choice(['left', 'right', 'nonassoc', 'left', 'right', 'precedence']), take))
+                for i in take:
+                    if not terms[i]['lit'] and not terms[i].get('alias') and not terms[i].get('redecl') and rnd.random() < 0.3:
+                        terms[i]['declared'] = False      # a token introduced by its precedence line only
         for r in rules:
             if rnd.random() < 0.2:
                 r['prec'] = rnd.randrange(nT)
@@ -185,6 +188,33 @@ def wide_operator_grammar(rnd, nfill=62, nops=7):
     for i in range(nfill):
         rules.append(dict(lhs=0, rhs=[('t', i)], prec=None, c=i % 10, coef=[1]))
     return dict(terms=terms, nonterms=[dict(name='expr', tag='v0')], precs=precs, rules=rules, start=0, operator=True, big=True)
+
+
+def many_token_grammar(rnd, nkw=None):
+    """More than 256 grammar symbols: a large keyword vocabulary next to blocks of the shape
+    stmt : o1 A x | o1 c z | o2 A y ;  A : c E | d ;  E : e   (the states after o1 and o2 both have a goto on A, A has a rule that
+    ends in a nonterminal, and what follows A differs) - the symbol numbers of the nonterminals lie beyond one byte."""
+    nkw = nkw or rnd.randint(250, 262)
+    terms, rules = [], []
+    def T(name):
+        terms.append(dict(name=name, lit=None, tag='v0', num=None, declared=True))
+        return ('t', len(terms) - 1)
+    nonterms = [dict(name='stmt', tag='v0'), dict(name='kw', tag='v0')]
+    def R(lhs, rhs, c):
+        rules.append(dict(lhs=lhs, rhs=rhs, prec=None, c=c % 10, coef=[1 if s[0] == 'n' else 0 for s in rhs]))
+    z = T('zz')
+    nb = rnd.randint(3, 6)
+    for b in range(nb):
+        o1, o2, x, y, c, d, e = [T('%s%d' % (n, b)) for n in ('oa', 'ob', 'xa', 'xb', 'ca', 'da', 'ea')]
+        nonterms.append(dict(name='Arg%d' % b, tag='v0')); A = ('n', len(nonterms) - 1)
+        nonterms.append(dict(name='Ext%d' % b, tag='v0')); E = ('n', len(nonterms) - 1)
+        R(0, [o1, A, x], b); R(0, [o1, c, z], b + 1); R(0, [o2, A, y], b + 2)
+        R(A[1], [c, E], 1); R(A[1], [d], 2); R(E[1], [e], 7)
+    k = T('kk')
+    R(0, [k, ('n', 1)], 3)
+    for i in range(nkw):
+        R(1, [T('K%03d' % i)], i)
+    return dict(terms=terms, nonterms=nonterms, precs=[], rules=rules, start=0, big=True)
 
 
 def rr_prec_grammar(rnd):
@@ -296,6 +326,31 @@ def long_rule_grammar(rnd):
     rules = [dict(lhs=0, rhs=mix, prec=None, c=rnd.randint(0, 9), coef=[rnd.randint(1, 9) for _ in range(k)]),
              dict(lhs=0, rhs=[('t', 0)], prec=None, c=3, coef=[2]),
              dict(lhs=1, rhs=[('t', 1), ('t', 2)], prec=None, c=1, coef=[5, 7])]
+    return dict(terms=terms, nonterms=nonterms, precs=[], rules=rules, start=0)
+
+
+def long_first_grammar(rnd, pos=1):
+    """A rule with 10-14 right-hand-side symbols as rule number `pos` (1 or 2) in a grammar with more than 10*pos+1 rules: item
+    (pos, dot 10) next to item (10*pos+1, dot 0), (pos, 11) next to (10*pos+1, 1) - the pairs whose decimal digits run together."""
+    k = rnd.randint(11, 14)
+    terms = [dict(name='w%d' % i, lit=None, tag=TAGS[i % 3], num=None, declared=True) for i in range(k)]
+    nonterms = [dict(name='S', tag='v1'), dict(name='U', tag='v2'), dict(name='V', tag='v0')]
+    mix = [('t', i) for i in range(k)]
+    mix[rnd.randrange(1, 9)] = ('n', 1)
+    mix[k - 1] = ('n', 2)
+    longr = dict(lhs=0, rhs=mix, prec=None, c=rnd.randint(0, 9), coef=[rnd.randint(1, 9) for _ in range(k)])
+    rules = [dict(lhs=0, rhs=[('t', 0)], prec=None, c=3, coef=[2])] if pos == 2 else []
+    rules.append(longr)
+    need = 10 * pos + 3 + rnd.randint(0, 3)
+    combos = [(lhs, ln, st) for lhs in (1, 2) for ln in (1, 2, 3) for st in range(k)]
+    rnd.shuffle(combos)
+    for i, (lhs, ln, st) in enumerate(combos[:need - len(rules)]):
+        rhs = [('t', (st + j) % k) for j in range(ln)]
+        rules.append(dict(lhs=lhs, rhs=rhs, prec=None, c=i % 10, coef=[1 + (i + j) % 9 for j in range(ln)]))
+    if not any(r['lhs'] == 1 for r in rules[1:]):
+        rules.append(dict(lhs=1, rhs=[('t', 0)], prec=None, c=1, coef=[1]))
+    if not any(r['lhs'] == 2 for r in rules[1:]):
+        rules.append(dict(lhs=2, rhs=[('t', 1)], prec=None, c=1, coef=[1]))
     return dict(terms=terms, nonterms=nonterms, precs=[], rules=rules, start=0)
 
 
